@@ -75,15 +75,17 @@ Definition ral_accepts (s : ral_gstate) (gov : bool) (data : bytes) : option (Z 
 Definition rets_of (x : Z * Z * bytes * Z * bytes) : list rval :=
   let '(ec, tc, ea, sq, pl) := x in [RZ ec; RZ tc; RB ea; RZ sq; RB pl].
 
-(* the GENERATED function applied to the contract state: its return values *)
-Definition ral_source (s : ral_gstate) (gov : bool) (data : bytes) : option (list rval) :=
-  option_map fst (RalVerify.ral_parseAndVerifyVAA keccak ecrecover (RB data) (RBool gov) (RZ (gs_cur_idx s)) (RB (gs_cur s))
-                    (RZ (gs_prev_idx s)) (RZ (gs_now s)) (RZ (gs_prev_exp s)) (RB (gs_prev s))).
+(* the GENERATED function applied to the contract state *)
+Definition ral_source_full (s : ral_gstate) (gov : bool) (data : bytes) : option rres :=
+  RalVerify.ral_parseAndVerifyVAA keccak ecrecover (RB data) (RBool gov) (RZ (gs_cur_idx s)) (RB (gs_cur s))
+    (RZ (gs_prev_idx s)) (RZ (gs_now s)) (RZ (gs_prev_exp s)) (RB (gs_prev s)).
+
+(* ... its return values *)
+Definition ral_source (s : ral_gstate) (gov : bool) (data : bytes) : option (list rval) := option_map fst (ral_source_full s gov data).
 
 (* ... and what it had bound to a name when it returned (e.g. "hash", "body", "quorumSize") *)
 Definition ral_source_binding (name : String.string) (s : ral_gstate) (gov : bool) (data : bytes) : option rval :=
-  match RalVerify.ral_parseAndVerifyVAA keccak ecrecover (RB data) (RBool gov) (RZ (gs_cur_idx s)) (RB (gs_cur s))
-          (RZ (gs_prev_idx s)) (RZ (gs_now s)) (RZ (gs_prev_exp s)) (RB (gs_prev s)) with
+  match ral_source_full s gov data with
   | Some (_, env) => rlookup name env
   | None => None
   end.
